@@ -152,10 +152,77 @@ def r_validity_bodies(prog, rep):
                 cls, sorted("a value-dependent answer" if x is None else str(x).lower() for x in got), pred), f)
 
 
+def r_callbacks_reusable(prog, rep):
+    """shared by C08 and C12: the engine keeps a rule object for the life of the build system and calls its callbacks once per build."""
+    r = rep.rule("R-CALLBACKS-REUSABLE",
+                 "the action / validity / status callbacks handed to a BuildSystemRule are called in every build for as long as the build system lives: "
+                 "they read their captures and never consume them (no std::move / swap / clear of a captured variable) — the second task created by a "
+                 "callback must see the same path, filters and command as the first", floor=10)
+    f = prog.fn("BuildSystemEngineDelegate::lookupRule")
+    owners = [f] + [h for c in f.calls() for h in [prog.functions.get(c.get("fk")) if c.get("fk") else None]
+                    if h is not None and h is not f and not h.is_lambda and relpath(h.file) == relpath(f.file) and not h.cls]
+    n = 0
+    for g in owners:
+        for cons in g.nodes:
+            if cons.get("k") != "construct" or not (cons.get("fn") or "").endswith("BuildSystemRule::BuildSystemRule"):
+                continue
+            for a in arg_nodes(cons):
+                if a is None:
+                    continue
+                for x in a.walk():
+                    if x.get("k") != "lambda":
+                        continue
+                    lf = prog.lambda_fn(x)
+                    if lf is None:
+                        continue
+                    n += 1
+                    own = set(p_["did"] for p_ in lf.params) | set(v["did"] for d in lf.nodes if d.get("k") == "decl" for v in d.get("vars", []))
+                    bad = None
+                    for c in lf.nodes:
+                        if c.get("k") != "call":
+                            continue
+                        nm = (c.get("fn") or "").split("::")[-1]
+                        if nm == "move" and (c.get("fn") or "").startswith("std::"):
+                            # std::move is only a cast: the capture is consumed when the result binds to an rvalue-reference parameter
+                            # (a move constructor / move assignment / a `T&&` sink); bound to `const T&` or converted to a view it is untouched
+                            par, cur = lf.parent_of(c), c
+                            while par is not None and par.get("k") in ("cast", "paren", "cleanups", "temporary", "bindtemp"):
+                                cur, par = par, lf.parent_of(par)
+                            consumed = False
+                            if par is not None and par.get("k") in ("call", "construct"):
+                                ai = [i_ for i_, a_ in enumerate(par.get("args", [])) if a_ == cur["id"]]
+                                pt = par.get("pt") or []
+                                if ai and ai[0] < len(pt) and "&&" in lf.db_types[pt[ai[0]]]:
+                                    consumed = True
+                                if par.get("k") == "call" and par.get("op") == "=" and "obj" not in par and ai:
+                                    consumed = True
+                            if not consumed:
+                                continue
+                            args = [y for y in arg_nodes(c) if y is not None]
+                        elif nm in ("swap", "exchange") and (c.get("fn") or "").startswith("std::"):
+                            args = [y for y in arg_nodes(c) if y is not None]
+                        elif nm in ("clear", "swap", "reset", "release", "pop_back", "erase") and "obj" in c:
+                            args = [c.child("obj")]
+                        else:
+                            continue
+                        for y in args:
+                            for z in y.walk():
+                                if z.get("k") == "ref" and z.get("did") is not None and z.get("did") not in own and z.get("dk") not in ("func", "enumconst", "enum", "global", "field"):
+                                    bad = (c, z)
+                    site = "lookupRule|%s:%s|callback" % (relpath(g.file).split("/")[-1], x.get("ln") or cons.get("ln") or n)
+                    r.check(bad is None, "lookupRule|callback#%d" % n, "", "a rule callback consumes its capture `%s` (%s): the next task this rule creates sees an emptied value" % (
+                        expr_str(bad[1]) if bad else "", expr_str(bad[0])[:60] if bad else ""), lf, bad[0] if bad else None)
+    if n < 10:
+        raise AnalysisBroken("R-CALLBACKS-REUSABLE: only %d rule callbacks found" % n)
+
+
 def run(ctx):
     prog, rep = ctx.prog, ctx.report
     r_buildfile_keys(prog, rep)
     r_validity_bodies(prog, rep)
+    r_callbacks_reusable(prog, rep)
+    from rules import C09
+    C09.r_sig_fold_all(prog, rep)
     from rules import inputids
     inputids.run_rule(prog, rep)
     from rules import C11
@@ -340,4 +407,10 @@ VARIANTS = [
     dict(name="benign-produced-node-validity-as-one-expression", file="lib/BuildSystem/BuildSystem.cpp",
          old="    if (value.isFailedInput())\n      return false;\n\n    // If the result was previously a missing input, it may have been because\n    // we did not previously know how to produce this node. We do now, so\n    // attempt to build it now.\n    if (value.isMissingInput())\n      return false;\n\n    // The produced node result itself doesn't need any synchronization.\n    return true;",
          new="    return !(value.isFailedInput() || value.isMissingInput());", expect=None),
+    dict(name="rule-action-moves-its-captured-path", file="lib/BuildSystem/BuildSystem.cpp",
+         edits=[("  DirectoryTreeSignatureTask(StringRef path, StringList&& filters)\n      : path(path), filters(std::move(filters)) {}", "  DirectoryTreeSignatureTask(std::string path, StringList&& filters)\n      : path(std::move(path)), filters(std::move(filters)) {}"),
+                ("        return new DirectoryTreeSignatureTask(path, StringList(decoder));", "        return new DirectoryTreeSignatureTask(std::move(path), StringList(decoder));")],
+         expect=("R-CALLBACKS-REUSABLE", "callback")),
+    dict(name="benign-move-of-capture-into-a-view-parameter", file="lib/BuildSystem/BuildSystem.cpp", old="        return new DirectoryTreeSignatureTask(path, StringList(decoder));",
+         new="        return new DirectoryTreeSignatureTask(std::move(path), StringList(decoder));", expect=None),
 ]
